@@ -973,7 +973,12 @@ func analysePackage(repo, dir, typeName string) (*pkgResult, error) {
 				body = pe.body
 				b.res.nodes[start[0]].pos = b.pos(pe.body)
 			}
-			b.finishFn(body, start, fc) // whatever leaves the function ends the thread: dangling frontier = no successor
+			// Whatever leaves the function ends the thread.  Every way out (fall-through end and every
+			// return, after the deferred calls) is linked to one explicit exit node: a frontier node that
+			// also has a fall-through successor (`mu.Lock(); if c { return }; mu.Unlock()`, or a function
+			// ending in a loop) would otherwise never be terminal, and a lock leaked on that path would
+			// escape the balance check (needed by C12).
+			b.emit("ISkip", b.finishFn(body, start, fc), nil)
 			res.Entries = append(res.Entries, pe.name)
 			res.entryIDs = append(res.entryIDs, start[0])
 		}
